@@ -33,6 +33,7 @@ import (
 	"oss.terrastruct.com/d2/d2layouts/d2dagrelayout"
 	"oss.terrastruct.com/d2/d2layouts/d2elklayout"
 	"oss.terrastruct.com/d2/d2lib"
+	"oss.terrastruct.com/d2/d2plugin"
 	"oss.terrastruct.com/d2/d2renderers/d2fonts"
 	"oss.terrastruct.com/d2/d2renderers/d2svg"
 	"oss.terrastruct.com/d2/d2target"
@@ -58,6 +59,49 @@ type Spec struct {
 	Dark   int64             `json:"dark"` // -1: none
 	Pad    int64             `json:"pad"`  // -1: default
 	Center bool              `json:"center"`
+	// ViaPlugin: the layout engine is reached the way the CLI reaches it, through the
+	// bundled plugin object of d2plugin (one per process, options hydrated once from the
+	// flag defaults), not through the layout package's DefaultLayout.
+	ViaPlugin bool `json:"via_plugin,omitempty"`
+}
+
+var pluginsOnce sync.Once
+var plugins []d2plugin.Plugin
+var pluginsErr error
+
+// bundledPlugins does what the CLI does at start-up: list the bundled plugins and hydrate
+// each one's options from its flags' default values.
+func bundledPlugins() ([]d2plugin.Plugin, error) {
+	pluginsOnce.Do(func() {
+		ctx := context.Background()
+		ps, err := d2plugin.ListPlugins(ctx)
+		if err != nil {
+			pluginsErr = err
+			return
+		}
+		for _, p := range ps {
+			flags, err := p.Flags(ctx)
+			if err != nil {
+				pluginsErr = err
+				return
+			}
+			opts := map[string]interface{}{}
+			for _, f := range flags {
+				opts[f.Tag] = f.Default
+			}
+			b, err := json.Marshal(opts)
+			if err != nil {
+				pluginsErr = err
+				return
+			}
+			if err := p.HydrateOpts(b); err != nil {
+				pluginsErr = err
+				return
+			}
+		}
+		plugins = ps
+	})
+	return plugins, pluginsErr
 }
 
 func (s Spec) Key() string {
@@ -141,6 +185,17 @@ func Execute(sp Spec, park func(stage string)) (out Output) {
 		return func(ctx context.Context, g *d2graph.Graph) error {
 			park("layout")
 			var err error
+			if sp.ViaPlugin {
+				ps, perr := bundledPlugins()
+				if perr != nil {
+					return perr
+				}
+				p, perr := d2plugin.FindPlugin(ctx, ps, engine)
+				if perr != nil {
+					return perr
+				}
+				return p.Layout(ctx, g)
+			}
 			if engine == "elk" {
 				err = d2elklayout.DefaultLayout(ctx, g)
 			} else {
@@ -214,6 +269,10 @@ type taskCtx struct {
 	targetLeft  int
 	noPair      bool
 	forceTarget string // set by the scheduler while the task is parked
+	// kid: a goroutine that an execution started itself (go func() {...}() in the pipeline's
+	// own code); scheduled like a task under the name of the task it descends from.
+	kid  bool
+	name string
 	// The task's wall clock is simulated: it advances by rate nanoseconds per scheduling
 	// point passed; the rate is drawn anew for every slice (from "this task has a core to
 	// itself" to "this task is starved": seconds pass between two statements).
@@ -279,7 +338,7 @@ type pairReq struct {
 
 const maxSwitches = 3000
 
-var stmtPoints, switches, heldBack atomic.Int64
+var stmtPoints, switches, heldBack, kidsStarted, wgWaits atomic.Int64
 
 // sliceLen draws how many scheduling points a task passes before it loses the CPU again:
 // log-uniform between 1 and about 130 000 points (16 000 stores), so that both "stop right here, two statements
@@ -353,7 +412,7 @@ func compiles(e corpus.Entry) bool {
 	return ok
 }
 
-func drawSpec(tp *tape.Tape, idx int, render, thorough bool, first bool) Spec {
+func drawSpec(tp *tape.Tape, idx int, render, thorough bool, first bool, allElk bool) Spec {
 	c := loadCorpus()
 	var sp Spec
 	sp.Render = render
@@ -364,7 +423,10 @@ func drawSpec(tp *tape.Tape, idx int, render, thorough bool, first bool) Spec {
 	if !render {
 		maxLen = 200000
 	}
-	if render && tp.Chance(2, 5, "spec.generated.render") {
+	if render && allElk && tp.Chance(2, 3, "spec.generated.selfloops") {
+		scr, files := d2gen.RenderScriptSelfLoops(tp)
+		sp.Script, sp.Files, sp.Name = []byte(scr), toBytes(files), "generated-selfloops"
+	} else if render && tp.Chance(2, 5, "spec.generated.render") {
 		scr, files := d2gen.RenderScript(tp)
 		sp.Script, sp.Files = []byte(scr), toBytes(files)
 		sp.Name = "generated"
@@ -396,9 +458,10 @@ func drawSpec(tp *tape.Tape, idx int, render, thorough bool, first bool) Spec {
 	sp.Layout = "dagre"
 	sp.Dark, sp.Pad = -1, -1
 	if render {
-		if tp.Chance(1, 10, "spec.elk") {
+		if tp.Chance(1, 10, "spec.elk") || allElk {
 			sp.Layout = "elk"
 		}
+		sp.ViaPlugin = tp.Chance(1, 2, "spec.viaplugin") || allElk
 		sp.Sketch = tp.Chance(1, 3, "spec.sketch")
 		themes := []int64{0, 1, 3, 4, 5, 6, 8, 100, 101, 200, 300, 301}
 		if tp.Chance(1, 3, "spec.theme") {
@@ -431,14 +494,19 @@ func Run(t *testing.T, cfg harness.Config, idx int, tp *tape.Tape) (res harness.
 		prop, o1, o2 = "C25", "O25.1", "O25.2"
 	}
 	nspec := 1 + tp.Weighted([]int{3, 4, 2}, "session.nspec")
+	// One render session in six lays out every diagram with ELK, through the plugin object
+	// as the CLI does, and most of its inputs are generated with self-loops (the engine is
+	// slow; otherwise a single diagram gets it one time in ten): what one ELK layout leaves
+	// behind can only show in another ELK layout.
+	allElk := render && tp.Chance(1, 6, "session.allelk")
 	var specs []Spec
 	for i := 0; i < nspec; i++ {
-		specs = append(specs, drawSpec(tp, idx, render, cfg.Thorough(), i == 0))
+		specs = append(specs, drawSpec(tp, idx, render, cfg.Thorough(), i == 0, allElk))
 	}
 	if tp.Chance(1, 5, "session.family") {
 		// a family: different programs over the same importable files
 		scripts, files := d2gen.Family(tp)
-		base := drawSpec(tp, idx, render, cfg.Thorough(), false)
+		base := drawSpec(tp, idx, render, cfg.Thorough(), false, allElk)
 		for i, scr := range scripts {
 			sp := base
 			sp.Name = fmt.Sprintf("family-member-%d", i)
@@ -562,8 +630,95 @@ func Run(t *testing.T, cfg harness.Config, idx int, tp *tape.Tape) (res harness.
 			}
 			t.budget = sliceLen(tp, mode != modePoints)
 		}
+		// Goroutines that the pipeline starts itself (statement-level sessions; the source
+		// overlay announces every `go func() {...}()` of the pipeline packages): the go
+		// statement is announced by the running goroutine, the new goroutine parks at its first
+		// statement and is from then on one more thing the scheduler can run; the scheduler
+		// takes no decision while an announced goroutine has not reported in. A task that
+		// waits for its goroutines (sync.WaitGroup.Wait, standard-library overlay) sits at a
+		// scheduling point until the counter is zero.
+		var announced, registered atomic.Int64
+		var spawners sync.Map // lineage id of an announcing goroutine -> its *taskCtx
+		var kids sync.Map     // lineage id -> *taskCtx
+		waitKids := func() bool {
+			for i := 0; announced.Load() != registered.Load(); i++ {
+				if i > 200000 {
+					return false
+				}
+				if i < 100 {
+					runtime.Gosched()
+				} else {
+					time.Sleep(50 * time.Microsecond)
+				}
+			}
+			return true
+		}
 		if mode != modeStages {
+			wh := &sync.VerifMutexHooks{}
+			wh.IsTarget = func(uintptr) bool {
+				t := cur.Load()
+				return t != nil && t.gid == runtime.VerifGID()
+			}
+			wh.Before = func(_ unsafe.Pointer, _ uintptr, attempt int) {
+				t := cur.Load()
+				if t == nil || t.gid != runtime.VerifGID() || sim.Draining() {
+					runtime.Gosched()
+					return
+				}
+				wgWaits.Add(1)
+				t.park("ww")
+			}
+			sync.VerifWait.Store(wh)
+			defer sync.VerifWait.Store(nil)
 			verifhook.YieldFn = func(point string, _ any) {
+				if len(point) == 1 {
+					switch point[0] {
+					case 'G':
+						if t := cur.Load(); t != nil && t.gid == runtime.VerifGID() && !sim.Draining() {
+							spawners.Store(t.gid, t)
+							announced.Add(1)
+						} else {
+							spawners.Delete(runtime.VerifGID())
+						}
+						return
+					case 'g':
+						pv, ok := spawners.Load(runtime.VerifParentGID())
+						gid := runtime.VerifGID()
+						if !ok || gid == 0 {
+							return // started by a goroutine the scheduler does not run: free
+						}
+						p := pv.(*taskCtx)
+						root := p.name
+						if j := strings.IndexByte(root, '.'); j >= 0 {
+							root = root[:j]
+						}
+						k := &taskCtx{idx: p.idx, spec: p.spec, gid: gid, budget: 1 << 60, rate: 50, kid: true}
+						k.name = fmt.Sprintf("%s.k%04x", root, gid&0xffff)
+						k.park = func(stage string) {
+							cur.Store(nil)
+							sim.Yield(k.name + ":" + stage)
+							cur.Store(k)
+							if stage == "stmt" {
+								nextSlice(k)
+							}
+						}
+						kids.Store(gid, k)
+						kidsStarted.Add(1)
+						sim.ParkQuiet(k.name+":start", sched.Go, func() { registered.Add(1) })
+						cur.Store(k)
+						nextSlice(k)
+						return
+					case 'x':
+						if v, ok := kids.Load(runtime.VerifGID()); ok {
+							kids.Delete(runtime.VerifGID())
+							if c := cur.Load(); c == v.(*taskCtx) {
+								cur.Store(nil)
+								sim.TaskDone()
+							}
+						}
+						return
+					}
+				}
 				if len(point) == 0 || (point[0] != 's' && point[0] != 'w') {
 					return
 				}
@@ -612,7 +767,7 @@ func Run(t *testing.T, cfg harness.Config, idx int, tp *tape.Tape) (res harness.
 					return
 				}
 				switches.Add(1)
-				if t.target != "" && store && point == t.target && !t.noPair {
+				if t.target != "" && store && point == t.target && !t.noPair && !t.kid {
 					pair = &pairReq{task: t.idx, spec: t.spec, site: point}
 				}
 				t.park("stmt")
@@ -631,7 +786,7 @@ func Run(t *testing.T, cfg harness.Config, idx int, tp *tape.Tape) (res harness.
 		for i, e := range execs {
 			i, e := i, e
 			started++
-			t := &taskCtx{idx: i, spec: e.spec, budget: 1 << 60, rate: 50}
+			t := &taskCtx{idx: i, spec: e.spec, budget: 1 << 60, rate: 50, name: fmt.Sprintf("task%02d", i)}
 			tasks[i] = t
 			go func() {
 				defer sim.TaskDone()
@@ -705,14 +860,22 @@ func Run(t *testing.T, cfg harness.Config, idx int, tp *tape.Tape) (res harness.
 					b := cands[tp.Draw(len(cands), "pair.partner")]
 					tasks[b].forceTarget = p.site
 					kb := taskKey(b)
+					if !waitKids() {
+						res.HarnessError = "a goroutine started by the pipeline did not report in"
+						break
+					}
 					sim.Step(false, func(k string) bool { return k == kb })
 					pair = nil
-					if ka := taskKey(p.task); ka != "" {
+					if ka := taskKey(p.task); ka != "" && waitKids() {
 						sim.Step(false, func(k string) bool { return k == ka })
 					}
 					pairs++
 					continue
 				}
+			}
+			if !waitKids() {
+				res.HarnessError = "a goroutine started by the pipeline did not report in"
+				break
 			}
 			if !sim.Step(false, nil) {
 				res.HarnessError = "pipeline tasks are blocked without being parked"
@@ -810,6 +973,8 @@ func Run(t *testing.T, cfg harness.Config, idx int, tp *tape.Tape) (res harness.
 		res.ProbeN("statement_points_passed", int(stmtPoints.Swap(0)))
 		res.ProbeN("statement_level_switches", int(switches.Swap(0)))
 		res.ProbeN("switch_held_back_because_a_lock_was_held", int(heldBack.Swap(0)))
+		res.ProbeN("goroutines_started_by_the_pipeline_and_scheduled", int(kidsStarted.Swap(0)))
+		res.ProbeN("waitgroup_waits_turned_into_scheduling_points", int(wgWaits.Swap(0)))
 	}
 	errs := 0
 	for _, e := range execs {
